@@ -5,9 +5,9 @@
 cd "$(dirname "$0")/.." || exit 2
 export GOFLAGS=-mod=mod GOPROXY=off GOSUMDB=off GOTOOLCHAIN=local
 names="$*"
-[ -z "$names" ] && names=$(ls seeded | grep -E '^C[0-9]+[bcd]?$')
+[ -z "$names" ] && names=$(ls seeded | grep -E '^C[0-9]+[bcde]?$')
 for n in $names; do
-  id=$(echo "$n" | sed "s/[bcd]$//")
+  id=$(echo "$n" | sed "s/[bcde]$//")
   if ! git -C /repo diff --quiet; then echo "/repo not clean"; exit 2; fi
   git -C /repo apply "$(pwd)/seeded/$n/patch.diff" || { echo "$n patch does not apply"; continue; }
   out=$(timeout 1500 ./check "$id" --tier quick 2>&1 | grep -E "^VIOLATION|OK:" | tail -1)
